@@ -1,6 +1,7 @@
 """C09 - addressing. Campaigns: K5 tables (is_for_me / ids / prefix / mirror, exhaustive per address),
 through-layer filtering, functional sends around the single-frame limit."""
 import random
+import vclock  # noqa: F401,E402  (clock trampolines go in before the library binds anything)
 import isotp
 from core import *
 from gen import *
@@ -11,7 +12,7 @@ THEOREMS = 'IsoTp.Props.C09'
 RULE = ('per random address (7 modes x full/rx-only/asymmetric): the expected rx id with every single bit flipped, the other id '
         'type, the tx id, random ids, all 256 first data bytes, empty data (exhaustive per address) compared impl.is_for_me vs the '
         'extracted model predicate (proved equivalent to the documented condition, theorem C09_iff); identifiers/prefix vs model; '
-        'mirrored acceptance; frames through a layer mid-reception; functional/physical sends at every length around the single '
+        'mirrored acceptance; frames through a layer mid-reception; functional/physical sends (bytes and generator payloads) at every length around the single '
         'frame limit for the 8 link sizes. non-trivial = distinct (address, frame) pairs / distinct cases'
         ' (emitted) physical and functional sends, own multi-frame messages and receptions answered with Flow Control, interleaved, with the rate limiter holding frames back: every emitted frame carries the documented identifier (functional only for Single Frames of functional requests). Addresses also carry legal parameters their mode does not use.')
 ASSUME = ['identifiers range over 0 <= id < 2^29 (CAN); non-integer address arguments are covered by C16']
@@ -140,12 +141,13 @@ def run_shard(campaign, shard, nshards, seed, tier):
                         params['tx_data_min_length'] = ml
                     if tx_dl > 8:
                         params['can_fd'] = True
-                    case = {'insts': [{'txa': a, 'rxa': rxa, 'params': params}],
-                            'ops': [[0, 'send', tat, hx(bytes(range(1, n + 1)))], [0, 'proc', 1, 1]]}
-                    part.hist('functional', '%s/tx_dl=%d/%s%s' % (tat, tx_dl, 'fits' if n <= cap else 'toolong', '/asym' if rxmode else ''))
-                    part.distinct(case)
-                    lc.run_case(part, campaign, case, oracle=lambda c, il, ii, cap=cap, n=n, tat=tat, a=a: oracle_functional(c, il, ii, cap, n, tat, a),
-                                theorem=THEOREMS + '.C09_func')
+                    for as_gen in (False, True):       # the payload as bytes and as a (generator, size) pair: the limit is on the size
+                        send = [0, 'sendgen', tat, n, hx(bytes(range(1, n + 1))), None] if as_gen else [0, 'send', tat, hx(bytes(range(1, n + 1)))]
+                        case = {'insts': [{'txa': a, 'rxa': rxa, 'params': params}], 'ops': [send, [0, 'proc', 1, 1]]}
+                        part.hist('functional', '%s/tx_dl=%d/%s%s%s' % (tat, tx_dl, 'fits' if n <= cap else 'toolong', '/asym' if rxmode else '', '/gen' if as_gen else ''))
+                        part.distinct(case)
+                        lc.run_case(part, campaign, case, oracle=lambda c, il, ii, cap=cap, n=n, tat=tat, a=a: oracle_functional(c, il, ii, cap, n, tat, a),
+                                    theorem=THEOREMS + '.C09_func')
             part.sample({'tx_dl': tx_dl, 'mode': mode, 'min_len': ml, 'cap': cap})
     return part.result()
 
